@@ -4,7 +4,7 @@ KNOWN_KEY = "replace-iter-duplicate-key"
 
 def classify(case_line):
     # cases of the dedicated "dup" stream whose iterator really produced a key twice
-    tags = case_line.get("tags", [])
+    tags = case_line.get("tags") or []
     if "stream:dup" in tags and "replace-duplicate-key" in tags:
         return KNOWN_KEY
     return None
